@@ -23,7 +23,9 @@ async fn main() {
     for p in ["proj", "projb", "projc"] { std::fs::write(fx.join(p).join(".gitignore"), "*.pv\n").unwrap(); std::fs::write(fx.join(p).join(".ignore"), "*.pg\n").unwrap(); }
     std::fs::write(fx.join("home/.gitignore"), "*.gg\n").unwrap();                  // global VCS ignore
     std::fs::write(fx.join("home/.config/watchexec/ignore"), "*.ga\n").unwrap();    // global application ignore
-    std::fs::write(fx.join("ig.txt"), "*.ex\n").unwrap();                           // explicit --ignore-file
+    // explicit --ignore-file: one plain pattern, and one NEGATED pattern that re-includes a path a global source ignores (the explicit
+    // file comes last among the global-level sources, so its negation wins — whatever the flags)
+    std::fs::write(fx.join("ig.txt"), "*.ex\n!keep.gg\n").unwrap();
     std::fs::write(fx.join("ff.txt"), "*.ff\n").unwrap();                           // explicit --filter-file
     std::env::set_var("HOME", fx.join("home")); std::env::set_var("XDG_CONFIG_HOME", fx.join("home/.config"));
     std::env::remove_var("GIT_CONFIG_GLOBAL"); std::env::remove_var("WATCHEXEC_IGNORE_FILES"); std::env::remove_var("WATCHEXEC_FILTER_FILES");
@@ -33,7 +35,7 @@ async fn main() {
     // (explicit options, probes: (label, file name, event kind))
     let variants: Vec<(Vec<OsString>, Vec<(&str, &str, FileEventKind)>)> = vec![
         (vec!["--ignore-file".into(), fx.join("ig.txt").into(), "--ignore".into(), "*.ip".into()],
-         vec![("gg", "a.gg", modify), ("ga", "a.ga", modify), ("pv", "a.pv", modify), ("pg", "a.pg", modify), ("gc", "a.gc", modify), ("ex", "a.ex", modify), ("pyc", "a.pyc", modify), ("ip", "a.ip", modify), ("ok", "a.ok", modify)]),
+         vec![("gg", "a.gg", modify), ("ga", "a.ga", modify), ("pv", "a.pv", modify), ("pg", "a.pg", modify), ("gc", "a.gc", modify), ("ex", "a.ex", modify), ("pyc", "a.pyc", modify), ("ip", "a.ip", modify), ("ok", "a.ok", modify), ("keep", "keep.gg", modify)]),
         (vec!["--filter".into(), "*.fl".into(), "--ignore-file".into(), fx.join("ig.txt").into()], vec![("fl", "a.fl", modify), ("ok", "a.ok", modify), ("ex", "a.ex", modify)]),
         (vec!["--filter-file".into(), fx.join("ff.txt").into()], vec![("ff", "a.ff", modify), ("ok", "a.ok", modify)]),
         (vec!["--exts".into(), "rs,toml".into(), "--ignore".into(), "b.*".into()], vec![("rs", "a.rs", modify), ("toml", "a.toml", modify), ("brs", "b.rs", modify), ("ok", "a.ok", modify)]),
@@ -42,7 +44,7 @@ async fn main() {
         (vec!["--exts".into(), "rs,toml".into()], vec![("rs", "a.rs", modify), ("toml", "a.toml", modify), ("ok", "a.ok", modify)]),
         (vec!["--filter".into(), "*.fl".into()], vec![("fl", "a.fl", modify), ("ok", "a.ok", modify)]),
         (vec!["--ignore".into(), "*.ip".into()], vec![("ip", "a.ip", modify), ("ok", "a.ok", modify)]),
-        (vec!["--ignore-file".into(), fx.join("ig.txt").into()], vec![("ex", "a.ex", modify), ("ok", "a.ok", modify)]),
+        (vec!["--ignore-file".into(), fx.join("ig.txt").into()], vec![("ex", "a.ex", modify), ("ok", "a.ok", modify), ("keep", "keep.gg", modify)]),
     ];
     let mut cases = std::fs::File::create(out("cases.txt")).unwrap();
     let mut outs = std::fs::File::create(out("impl.txt")).unwrap();
